@@ -6,6 +6,15 @@
 // loopback rig cannot address (IPv4/IPv6 literals with and without port, host names, https) at
 // high volume; the oracle is the statement (Host rule, method/path/query/body unchanged,
 // end-to-end headers kept, hop-by-hop headers and everything Connection names removed).
+//
+// Where the servers of the pool come from is a dimension of its own: a static list (1-3 servers of
+// mixed address forms), or service discovery (serviceName + serverTags): instance lists with host
+// name and IP-addressed instances are fed either directly through ServerPool.useService (the call
+// the watcher goroutine makes) or through a real ServiceRegistry system controller with a
+// scripted registry behind it (first listing in NewServerPool, later lists as registry events).
+// The Host rule is judged for the server the request was actually addressed to: a discovered
+// instance never has keepHost, the static list (fallback when no instance carries a wanted tag)
+// keeps its own keepHost flags.
 package proxy
 
 import (
@@ -17,7 +26,9 @@ import (
 	"net/url"
 	"strconv"
 	"strings"
+	"sync"
 	"testing"
+	"time"
 
 	"gopkg.in/yaml.v3"
 	"pgregory.net/rapid"
@@ -25,8 +36,11 @@ import (
 	egcontext "github.com/megaease/easegress/pkg/context"
 	"github.com/megaease/easegress/pkg/filters"
 	"github.com/megaease/easegress/pkg/logger"
+	"github.com/megaease/easegress/pkg/object/serviceregistry"
+	"github.com/megaease/easegress/pkg/option"
 	"github.com/megaease/easegress/pkg/protocols/httpprot"
 	"github.com/megaease/easegress/pkg/resilience"
+	"github.com/megaease/easegress/pkg/supervisor"
 	"github.com/megaease/easegress/pkg/tracing"
 )
 
@@ -38,6 +52,7 @@ type vfR3Server struct {
 	Port     string // "" or ":n"
 	Kind     string // v4 | v6 | name
 	KeepHost bool
+	Origin   string // static | discovered
 }
 
 func (s vfR3Server) URL() string { return s.Scheme + "://" + s.Host + s.Port }
@@ -225,23 +240,334 @@ type vfR3Rendered struct {
 	Err      string
 }
 
+// ---------------------------------------------------------------------------------------------
+// where the servers of the pool come from
+
+var (
+	vfR3InstNames = []string{"inst-a.svc.cluster.local", "node1", "API.Internal.Example", "10-0-0-5.pods.test", "db.example.com", "backend"}
+	vfR3InstV4    = []string{"10.2.0.5", "172.16.5.4", "127.0.0.2", "192.168.7.70"}
+	vfR3InstV6    = []string{"[fd00::7]", "[::1]"}
+	vfR3Tags      = []string{"v1", "v2", "canary"}
+)
+
+// vfR3Inst is one instance a service registry reports.
+type vfR3Inst struct {
+	ID     string
+	Scheme string // "" (= http), http, https
+	Addr   string
+	Kind   string // v4 | v6 | name
+	Port   uint16
+	Tags   []string
+}
+
+func (in vfR3Inst) server() vfR3Server {
+	sch := in.Scheme
+	if sch == "" {
+		sch = "http"
+	}
+	return vfR3Server{Scheme: sch, Host: in.Addr, Port: ":" + strconv.Itoa(int(in.Port)), Kind: in.Kind, Origin: "discovered"}
+}
+
+func (in vfR3Inst) String() string {
+	return fmt.Sprintf("%s=%s://%s:%d tags=%v", in.ID, in.Scheme, in.Addr, in.Port, in.Tags)
+}
+
+type vfR3Pool struct {
+	Source     string // static | discovery
+	Feed       string // direct | registry (discovery only)
+	Candidate  bool   // the pool under test is a candidate pool selected by a request header
+	Static     []vfR3Server
+	ServerTags []string
+	Policy     string
+	Registry   string
+	Service    string
+}
+
+func vfR3HasTag(want, have []string) bool {
+	for _, w := range want {
+		for _, h := range have {
+			if w == h {
+				return true
+			}
+		}
+	}
+	return false
+}
+
+func vfR3GenPool(rt *rapid.T, registryOK bool) *vfR3Pool {
+	p := &vfR3Pool{Source: "static"}
+	if rapid.Bool().Draw(rt, "servers-from-discovery") {
+		p.Source = "discovery"
+		p.Feed = "direct"
+		if registryOK && rapid.IntRange(0, 2).Draw(rt, "feed-through-registry") == 0 {
+			p.Feed = "registry"
+		}
+	}
+	p.Candidate = rapid.IntRange(0, 3).Draw(rt, "candidate-pool") == 0
+	ns := rapid.SampledFrom([]int{1, 1, 1, 2, 3}).Draw(rt, "nstatic")
+	seen := map[string]bool{}
+	for len(p.Static) < ns {
+		s := vfR3GenServer(rt)
+		s.Origin = "static"
+		if k := strings.ToLower(s.URL()); !seen[k] {
+			seen[k] = true
+			p.Static = append(p.Static, s)
+		}
+	}
+	if p.Source == "discovery" {
+		p.ServerTags = []string{rapid.SampledFrom(vfR3Tags).Draw(rt, "servertag")}
+		if rapid.IntRange(0, 2).Draw(rt, "two-servertags") == 0 {
+			if t := rapid.SampledFrom(vfR3Tags).Draw(rt, "servertag2"); t != p.ServerTags[0] {
+				p.ServerTags = append(p.ServerTags, t)
+			}
+		}
+	}
+	p.Policy = rapid.SampledFrom([]string{"", "", "roundRobin", "random"}).Draw(rt, "lb-policy")
+	return p
+}
+
+// vfR3GenReport draws an instance list: 0-4 instances with distinct ids and URLs; host-name and
+// IP-addressed instances are mixed, some instances carry none of the wanted tags.
+func vfR3GenReport(rt *rapid.T, p *vfR3Pool) []vfR3Inst {
+	n := rapid.SampledFrom([]int{0, 1, 1, 2, 2, 3, 4}).Draw(rt, "ninst")
+	var out []vfR3Inst
+	ids, urls := map[string]bool{}, map[string]bool{}
+	for tries := 0; len(out) < n && tries < 12; tries++ {
+		in := vfR3Inst{ID: fmt.Sprintf("i%d", rapid.IntRange(0, 5).Draw(rt, "inst-id"))}
+		in.Kind = rapid.SampledFrom([]string{"name", "name", "name", "v4", "v4", "v6"}).Draw(rt, "inst-kind")
+		switch in.Kind {
+		case "name":
+			in.Addr = rapid.SampledFrom(vfR3InstNames).Draw(rt, "inst-name")
+		case "v4":
+			in.Addr = rapid.SampledFrom(vfR3InstV4).Draw(rt, "inst-v4")
+		default:
+			in.Addr = rapid.SampledFrom(vfR3InstV6).Draw(rt, "inst-v6")
+		}
+		in.Scheme = rapid.SampledFrom([]string{"", "http", "https"}).Draw(rt, "inst-scheme")
+		in.Port = rapid.SampledFrom([]uint16{8080, 80, 443, 9001, 65535}).Draw(rt, "inst-port")
+		switch rapid.IntRange(0, 4).Draw(rt, "inst-tags") {
+		case 0: // none of the wanted tags
+			for _, t := range vfR3Tags {
+				if !vfR3HasTag([]string{t}, p.ServerTags) {
+					in.Tags = append(in.Tags, t)
+					break
+				}
+			}
+		case 1:
+			in.Tags = append([]string{"other"}, p.ServerTags...)
+		default:
+			in.Tags = []string{p.ServerTags[len(p.ServerTags)-1]}
+		}
+		u := strings.ToLower(in.server().URL())
+		if ids[in.ID] || urls[u] {
+			continue
+		}
+		ids[in.ID], urls[u] = true, true
+		out = append(out, in)
+	}
+	return out
+}
+
+func (p *vfR3Pool) specs(report []vfR3Inst) map[string]*serviceregistry.ServiceInstanceSpec {
+	m := map[string]*serviceregistry.ServiceInstanceSpec{}
+	for _, in := range report {
+		sp := &serviceregistry.ServiceInstanceSpec{RegistryName: p.Registry, ServiceName: p.Service, InstanceID: in.ID,
+			Address: in.Addr, Port: in.Port, Scheme: in.Scheme, Tags: append([]string(nil), in.Tags...)}
+		m[sp.Key()] = sp
+	}
+	return m
+}
+
+func (p *vfR3Pool) yaml() string {
+	var b strings.Builder
+	b.WriteString("name: proxy\nkind: Proxy\npools:\n")
+	write := func() {
+		// the pool under test
+		b.WriteString("- servers:\n")
+		for _, s := range p.Static {
+			b.WriteString("  - url: " + strconv.Quote(s.URL()) + "\n")
+			if s.KeepHost {
+				b.WriteString("    keepHost: true\n")
+			}
+		}
+		if p.Source == "discovery" {
+			b.WriteString("  serviceName: " + p.Service + "\n")
+			if p.Feed == "registry" {
+				b.WriteString("  serviceRegistry: " + p.Registry + "\n")
+			}
+			b.WriteString("  serverTags: [" + strings.Join(p.ServerTags, ", ") + "]\n")
+		}
+		if p.Policy != "" {
+			b.WriteString("  loadBalance:\n    policy: " + p.Policy + "\n")
+		}
+		if p.Candidate {
+			b.WriteString("  filter:\n    headers:\n      X-Vf-Pool:\n        exact: cand\n")
+		}
+	}
+	if p.Candidate {
+		// main pool nobody must be sent to
+		b.WriteString("- servers:\n  - url: \"http://192.0.2.9:9\"\n")
+	}
+	write()
+	return b.String()
+}
+
+// vfR3Registry is the scripted registry behind the real ServiceRegistry controller.
+type vfR3Registry struct {
+	name   string
+	mu     sync.Mutex
+	insts  map[string]*serviceregistry.ServiceInstanceSpec
+	notify chan *serviceregistry.RegistryEvent
+}
+
+func (r *vfR3Registry) Name() string                                  { return r.name }
+func (r *vfR3Registry) Notify() <-chan *serviceregistry.RegistryEvent { return r.notify }
+func (r *vfR3Registry) ApplyServiceInstances(m map[string]*serviceregistry.ServiceInstanceSpec) error {
+	return fmt.Errorf("read-only")
+}
+func (r *vfR3Registry) DeleteServiceInstances(m map[string]*serviceregistry.ServiceInstanceSpec) error {
+	return fmt.Errorf("read-only")
+}
+func (r *vfR3Registry) GetServiceInstance(serviceName, instanceID string) (*serviceregistry.ServiceInstanceSpec, error) {
+	r.mu.Lock()
+	defer r.mu.Unlock()
+	for _, in := range r.insts {
+		if in.ServiceName == serviceName && in.InstanceID == instanceID {
+			return in.DeepCopy(), nil
+		}
+	}
+	return nil, fmt.Errorf("not found")
+}
+func (r *vfR3Registry) ListServiceInstances(serviceName string) (map[string]*serviceregistry.ServiceInstanceSpec, error) {
+	r.mu.Lock()
+	defer r.mu.Unlock()
+	out := map[string]*serviceregistry.ServiceInstanceSpec{}
+	for k, in := range r.insts {
+		if in.ServiceName == serviceName {
+			out[k] = in.DeepCopy()
+		}
+	}
+	return out, nil
+}
+func (r *vfR3Registry) ListAllServiceInstances() (map[string]*serviceregistry.ServiceInstanceSpec, error) {
+	r.mu.Lock()
+	defer r.mu.Unlock()
+	out := map[string]*serviceregistry.ServiceInstanceSpec{}
+	for k, in := range r.insts {
+		out[k] = in.DeepCopy()
+	}
+	return out, nil
+}
+
+func (r *vfR3Registry) set(m map[string]*serviceregistry.ServiceInstanceSpec) (old map[string]*serviceregistry.ServiceInstanceSpec) {
+	r.mu.Lock()
+	defer r.mu.Unlock()
+	old, r.insts = r.insts, m
+	return old
+}
+
+var (
+	vfR3SuperOnce sync.Once
+	vfR3Super     *supervisor.Supervisor
+	vfR3SvcReg    *serviceregistry.ServiceRegistry
+	vfR3SuperErr  error
+	vfR3Counter   int
+)
+
+// vfR3GetSuper builds (once per process) a supervisor whose only system controller is a real,
+// initialised ServiceRegistry: what ServerPool.watchServers asks the supervisor for.
+func vfR3GetSuper() (*supervisor.Supervisor, *serviceregistry.ServiceRegistry, error) {
+	vfR3SuperOnce.Do(func() {
+		defer func() {
+			if p := recover(); p != nil {
+				vfR3SuperErr = fmt.Errorf("panic: %v", p)
+			}
+		}()
+		entity, err := supervisor.NewDefaultMock().NewObjectEntityFromConfig("kind: ServiceRegistry\nname: ServiceRegistry\nsyncInterval: 10s\n")
+		if err != nil {
+			vfR3SuperErr = err
+			return
+		}
+		entity.InitWithRecovery(nil)
+		sr, ok := entity.Instance().(*serviceregistry.ServiceRegistry)
+		if !ok {
+			vfR3SuperErr = fmt.Errorf("entity instance is %T", entity.Instance())
+			return
+		}
+		var sys sync.Map
+		sys.Store(serviceregistry.Kind, entity)
+		vfR3Super = supervisor.NewMock(option.New(), nil, sync.Map{}, sys, nil, nil, false, nil, nil)
+		if _, ok := vfR3Super.GetSystemController(serviceregistry.Kind); !ok {
+			vfR3SuperErr = fmt.Errorf("the mocked supervisor does not return the ServiceRegistry controller")
+			return
+		}
+		vfR3SvcReg = sr
+	})
+	return vfR3Super, vfR3SvcReg, vfR3SuperErr
+}
+
+const vfR3SyncWait = 60 * time.Second // expiry is inconclusive, never a verdict
+
+// vfR3WaitFor polls cond (the pool's watcher goroutine applies registry events asynchronously).
+func vfR3WaitFor(cond func() bool) bool {
+	deadline := time.Now().Add(vfR3SyncWait)
+	for i := 0; ; i++ {
+		if cond() {
+			return true
+		}
+		if time.Now().After(deadline) {
+			return false
+		}
+		if i < 200 {
+			time.Sleep(50 * time.Microsecond)
+		} else {
+			time.Sleep(2 * time.Millisecond)
+		}
+	}
+}
+
 func TestVerifC03Render(t *testing.T) {
 	vf := vfBegin(t, "C03")
 	defer vf.End()
 	saved := fnSendRequest
 	defer func() { fnSendRequest = saved }()
+	super, svcReg, superErr := vfR3GetSuper()
+	if superErr != nil {
+		vf.Note("no ServiceRegistry controller available, discovery is only fed through useService: " + superErr.Error())
+	}
 
 	rapid.Check(t, func(rt *rapid.T) {
-		srv := vfR3GenServer(rt)
-		y := "name: proxy\nkind: Proxy\npools:\n- servers:\n  - url: " + strconv.Quote(srv.URL()) + "\n"
-		if srv.KeepHost {
-			y += "    keepHost: true\n"
+		pool := vfR3GenPool(rt, superErr == nil)
+		vfR3Counter++
+		pool.Service = fmt.Sprintf("vfsvc-%d", vfR3Counter)
+		pool.Registry = fmt.Sprintf("vfreg-%d", vfR3Counter)
+
+		// discovery: the instance lists of this case (the first one is what a registry-fed pool
+		// finds at its first listing; a directly fed pool starts on its static list)
+		var reports [][]vfR3Inst
+		if pool.Source == "discovery" {
+			nrep := rapid.IntRange(1, 3).Draw(rt, "nreports")
+			for i := 0; i < nrep; i++ {
+				reports = append(reports, vfR3GenReport(rt, pool))
+			}
 		}
+
+		var fake *vfR3Registry
+		if pool.Feed == "registry" {
+			fake = &vfR3Registry{name: pool.Registry, notify: make(chan *serviceregistry.RegistryEvent, 4)}
+			fake.set(pool.specs(reports[0]))
+			if err := svcReg.RegisterRegistry(fake); err != nil {
+				rt.Fatalf("VF-INCONCLUSIVE RegisterRegistry: %v", err)
+			}
+			defer func() { _ = svcReg.DeregisterRegistry(fake.name) }()
+		}
+
+		y := pool.yaml()
 		raw := map[string]interface{}{}
 		if err := yaml.Unmarshal([]byte(y), &raw); err != nil {
 			rt.Fatalf("VF-INCONCLUSIVE yaml: %v", err)
 		}
-		spec, err := filters.NewSpec(nil, "", raw)
+		spec, err := filters.NewSpec(super, "", raw)
 		if err != nil {
 			rt.Fatalf("VF-INCONCLUSIVE generator produced a proxy spec that validation rejects: %v\n%s", err, y)
 		}
@@ -249,185 +575,350 @@ func TestVerifC03Render(t *testing.T) {
 		px.Init()
 		px.InjectResiliencePolicy(map[string]resilience.Policy{})
 		defer px.Close()
+		sp := px.mainPool
+		if pool.Candidate {
+			if len(px.candidatePools) != 1 {
+				rt.Fatalf("VF-INCONCLUSIVE expected one candidate pool, got %d\n%s", len(px.candidatePools), y)
+			}
+			sp = px.candidatePools[0]
+		}
 
-		isIP := vfR3IsIPLiteral(srv.Host)
-		nreq := rapid.IntRange(1, 5).Draw(rt, "nreq")
-		for i := 0; i < nreq; i++ {
-			q := vfR3GenReq(rt)
-			stdr, err := http.ReadRequest(bufio.NewReader(bytes.NewReader(q.wire())))
-			if err != nil {
-				rt.Fatalf("VF-INCONCLUSIVE generator produced a request net/http rejects: %v\n%q", err, q.wire())
+		// phases: the state of the pool's server list while a batch of requests is sent
+		type phase struct {
+			name   string
+			report []vfR3Inst // nil: static list
+			have   bool
+		}
+		var phases []phase
+		switch {
+		case pool.Source == "static":
+			phases = []phase{{name: "static"}}
+		case pool.Feed == "direct":
+			if rapid.Bool().Draw(rt, "requests-before-first-report") {
+				phases = append(phases, phase{name: "before-first-report"})
 			}
-			req, _ := httpprot.NewRequest(stdr)
-			limit := int64(0)
-			if q.Stream {
-				limit = -1
+			for _, r := range reports {
+				phases = append(phases, phase{name: "report", report: r, have: true})
 			}
-			if err := req.FetchPayload(limit); err != nil {
-				rt.Fatalf("VF-INCONCLUSIVE FetchPayload: %v", err)
+		default:
+			phases = append(phases, phase{name: "first-listing", report: reports[0], have: true})
+			for _, r := range reports[1:] {
+				phases = append(phases, phase{name: "registry-event", report: r, have: true})
 			}
-			ctx := egcontext.New(tracing.NoopSpan)
-			ctx.SetRequest(egcontext.DefaultNamespace, req)
+		}
 
-			var got *vfR3Rendered
-			calls := 0
-			fnSendRequest = func(r *http.Request, client *http.Client) (*http.Response, error) {
-				calls++
-				g := &vfR3Rendered{URL: r.URL, Header: r.Header.Clone(), Method: r.Method}
-				var buf bytes.Buffer
-				if err := r.Write(&buf); err != nil {
-					g.Err = "render: " + err.Error()
-				} else if parsed, err := http.ReadRequest(bufio.NewReader(&buf)); err != nil {
-					g.Err = "re-parse: " + err.Error()
-				} else {
-					g.WireHost, g.Target = parsed.Host, parsed.RequestURI
-					g.Body, _ = io.ReadAll(parsed.Body)
+		history := ""
+		synced := false
+		for pi, ph := range phases {
+			// bring the pool into the phase
+			switch ph.name {
+			case "report":
+				sp.useService(pool.specs(ph.report))
+			case "registry-event":
+				probe, _ := httpprot.NewRequest(nil)
+				if !synced {
+					// the watcher delivers the list it found at creation as its first event; make sure
+					// that one is behind us: a sentinel list is applied and awaited by content
+					sent := vfR3Inst{ID: "sentinel", Addr: fmt.Sprintf("sentinel-%d.vf.test", vfR3Counter), Kind: "name", Port: 1, Tags: pool.ServerTags}
+					fake.set(pool.specs([]vfR3Inst{sent}))
+					fake.notify <- &serviceregistry.RegistryEvent{SourceRegistryName: fake.name, UseReplace: true, Replace: pool.specs([]vfR3Inst{sent})}
+					want := sent.server().URL()
+					if !vfR3WaitFor(func() bool { s := sp.LoadBalancer().ChooseServer(probe); return s != nil && s.URL == want }) {
+						rt.Fatalf("VF-INCONCLUSIVE the pool did not take over the sentinel instance list within %v", vfR3SyncWait)
+					}
+					synced = true
 				}
-				got = g
-				return &http.Response{StatusCode: 200, Proto: "HTTP/1.1", ProtoMajor: 1, ProtoMinor: 1, Header: http.Header{},
-					Body: io.NopCloser(strings.NewReader("ok")), ContentLength: 2, Request: r}, nil
+				prev := sp.LoadBalancer()
+				next := pool.specs(ph.report)
+				old := fake.set(next)
+				ev := &serviceregistry.RegistryEvent{SourceRegistryName: fake.name, UseReplace: true, Replace: next}
+				if rapid.Bool().Draw(rt, "event-as-diff") {
+					if d := serviceregistry.NewRegistryEventFromDiff(fake.name, old, next); !d.Empty() {
+						ev = d
+						vf.Class("render:registry-event=apply/delete")
+					}
+				}
+				fake.notify <- ev
+				if !vfR3WaitFor(func() bool { return sp.LoadBalancer() != prev }) {
+					rt.Fatalf("VF-INCONCLUSIVE the pool did not rebuild its load balancer within %v after a registry event", vfR3SyncWait)
+				}
 			}
-			result := px.Handle(ctx)
-			ctx.Finish()
+			// the servers a request may be addressed to now, by URL
+			var live []vfR3Server
+			matching, names, ips := 0, 0, 0
+			if ph.have {
+				for _, in := range ph.report {
+					if vfR3HasTag(pool.ServerTags, in.Tags) {
+						matching++
+						live = append(live, in.server())
+						if vfR3IsIPLiteral(in.Addr) {
+							ips++
+						} else {
+							names++
+						}
+					}
+				}
+			}
+			if matching == 0 {
+				live = append(live, pool.Static...)
+			}
+			history += fmt.Sprintf("\nphase %d %s", pi, ph.name)
+			if ph.have {
+				history += fmt.Sprintf(" instances=%v", ph.report)
+			}
+			if pool.Source == "discovery" {
+				switch {
+				case !ph.have:
+					vf.Class("render:discovery-phase=static-list-before-first-report")
+				case len(ph.report) == 0:
+					vf.Class("render:discovery-phase=empty-list(static-fallback)")
+				case matching == 0:
+					vf.Class("render:discovery-phase=no-instance-with-wanted-tag(static-fallback)")
+				case names > 0 && ips > 0:
+					vf.Class("render:discovery-phase=host-name-and-ip-instances")
+				case names > 0:
+					vf.Class("render:discovery-phase=host-name-instances-only")
+				default:
+					vf.Class("render:discovery-phase=ip-instances-only")
+				}
+				if ph.have && matching > 0 && matching < len(ph.report) {
+					vf.Class("render:discovery-phase=some-instances-without-wanted-tag")
+				}
+				if pi > 0 && phases[pi-1].have && len(phases[pi-1].report) > 0 && matching == 0 {
+					vf.Class("render:discovery-phase=back-to-static-after-instances")
+				}
+			}
 
-			// classes / non-triviality: an address form other than ip:port / name:port, or keepHost,
-			// or a Connection-listed header that is present, or an escaped path
-			listedPresent := false
-			sent := map[string][]string{}
-			var order []string
-			for _, kv := range append(append([][2]string{}, q.E2E...), q.Hop...) {
-				k := http.CanonicalHeaderKey(kv[0])
-				if _, ok := sent[k]; !ok {
-					order = append(order, k)
-				}
-				sent[k] = append(sent[k], kv[1])
+			nreq := rapid.IntRange(1, 5).Draw(rt, "nreq")
+			if pool.Source == "discovery" {
+				// enough requests for a round-robin pool to reach every live server now and then
+				nreq = rapid.IntRange(1, len(live)+1).Draw(rt, "nreq-phase")
 			}
-			for _, l := range q.Listed {
-				if _, ok := sent[l]; ok && l != "Connection" {
-					listedPresent = true
+			for i := 0; i < nreq; i++ {
+				vfR3One(rt, vf, px, pool, ph.name, live, history, y)
+			}
+		}
+	})
+}
+
+// vfR3One sends one generated request through the Proxy and judges what was handed to the transport.
+func vfR3One(rt *rapid.T, vf *vfCollector, px *Proxy, pool *vfR3Pool, phase string, live []vfR3Server, history, y string) {
+	for once := true; once; once = false {
+		q := vfR3GenReq(rt)
+		if pool.Candidate {
+			q.E2E = append(q.E2E, [2]string{"X-Vf-Pool", "cand"})
+		}
+		stdr, err := http.ReadRequest(bufio.NewReader(bytes.NewReader(q.wire())))
+		if err != nil {
+			rt.Fatalf("VF-INCONCLUSIVE generator produced a request net/http rejects: %v\n%q", err, q.wire())
+		}
+		req, _ := httpprot.NewRequest(stdr)
+		limit := int64(0)
+		if q.Stream {
+			limit = -1
+		}
+		if err := req.FetchPayload(limit); err != nil {
+			rt.Fatalf("VF-INCONCLUSIVE FetchPayload: %v", err)
+		}
+		ctx := egcontext.New(tracing.NoopSpan)
+		ctx.SetRequest(egcontext.DefaultNamespace, req)
+
+		var got *vfR3Rendered
+		calls := 0
+		fnSendRequest = func(r *http.Request, client *http.Client) (*http.Response, error) {
+			calls++
+			g := &vfR3Rendered{URL: r.URL, Header: r.Header.Clone(), Method: r.Method}
+			var buf bytes.Buffer
+			if err := r.Write(&buf); err != nil {
+				g.Err = "render: " + err.Error()
+			} else if parsed, err := http.ReadRequest(bufio.NewReader(&buf)); err != nil {
+				g.Err = "re-parse: " + err.Error()
+			} else {
+				g.WireHost, g.Target = parsed.Host, parsed.RequestURI
+				g.Body, _ = io.ReadAll(parsed.Body)
+			}
+			got = g
+			return &http.Response{StatusCode: 200, Proto: "HTTP/1.1", ProtoMajor: 1, ProtoMinor: 1, Header: http.Header{},
+				Body: io.NopCloser(strings.NewReader("ok")), ContentLength: 2, Request: r}, nil
+		}
+		result := px.Handle(ctx)
+		ctx.Finish()
+
+		// the server the request was addressed to, among those the pool may use now
+		var srv *vfR3Server
+		if got != nil && got.URL != nil {
+			for j := range live {
+				if got.URL.Scheme == live[j].Scheme && strings.EqualFold(got.URL.Host, live[j].Host+live[j].Port) {
+					srv = &live[j]
+					break
 				}
 			}
-			escaped := strings.Contains(q.RawPath, "%")
-			form := srv.Kind
+		}
+
+		// classes / non-triviality: an address form other than ip:port / name:port, or keepHost,
+		// or a discovered server, or a Connection-listed header that is present, or an escaped path
+		listedPresent := false
+		sent := map[string][]string{}
+		var order []string
+		for _, kv := range append(append([][2]string{}, q.E2E...), q.Hop...) {
+			k := http.CanonicalHeaderKey(kv[0])
+			if _, ok := sent[k]; !ok {
+				order = append(order, k)
+			}
+			sent[k] = append(sent[k], kv[1])
+		}
+		for _, l := range q.Listed {
+			if _, ok := sent[l]; ok && l != "Connection" {
+				listedPresent = true
+			}
+		}
+		escaped := strings.Contains(q.RawPath, "%")
+		source := pool.Source
+		if pool.Feed != "" {
+			source += "-" + pool.Feed
+		}
+		vf.Class("render:pool-servers-from="+source, "render:phase="+phase)
+		if pool.Candidate {
+			vf.Class("render:candidate-pool")
+		}
+		if len(live) > 1 {
+			vf.Class("render:several-live-servers")
+		}
+		form := "unknown"
+		nontrivial := listedPresent || escaped
+		if srv != nil {
+			form = srv.Kind
 			if srv.Port == "" {
 				form += "-noport"
 			} else {
 				form += "-port"
 			}
 			vf.Class("render:server="+form, "render:scheme="+srv.Scheme)
+			switch {
+			case srv.Origin == "discovered":
+				form = "discovered-" + srv.Kind
+				vf.Class("render:served-by=discovered-" + srv.Kind + "-instance")
+			case pool.Source == "discovery":
+				vf.Class("render:served-by=static-server-of-discovery-pool:" + form)
+				if srv.KeepHost {
+					vf.Class("render:served-by=static-server-of-discovery-pool:keepHost")
+				}
+				form = "fallback-" + form
+			}
 			if srv.KeepHost {
 				vf.Class("render:keepHost")
 			}
-			if listedPresent {
-				vf.Class("render:connection-lists-present-header")
+			nontrivial = nontrivial || srv.Port == "" || srv.Kind == "v6" || srv.KeepHost || srv.Scheme == "https" || srv.Origin == "discovered"
+		}
+		if listedPresent {
+			vf.Class("render:connection-lists-present-header")
+		}
+		if escaped {
+			vf.Class("render:path-escaped")
+		}
+		if len(q.Body) > 0 {
+			vf.Class("render:body")
+		}
+		desc := fmt.Sprintf("proxy{%s}%s\nservers the pool may use now: %+v\nrequest %q", strings.ReplaceAll(y, "\n", "; "), history, live, q.wire())
+		vf.Case(nontrivial, desc, func() interface{} {
+			m := map[string]interface{}{"case": desc}
+			if got != nil {
+				m["rendered"] = fmt.Sprintf("%s %s Host: %s url=%s hdr=%v", got.Method, got.Target, got.WireHost, got.URL, got.Header)
 			}
-			if escaped {
-				vf.Class("render:path-escaped")
-			}
-			if len(q.Body) > 0 {
-				vf.Class("render:body")
-			}
-			nontrivial := srv.Port == "" || srv.Kind == "v6" || srv.KeepHost || listedPresent || escaped || srv.Scheme == "https"
-			desc := fmt.Sprintf("server url %s keepHost=%v\nrequest %q", srv.URL(), srv.KeepHost, q.wire())
-			vf.Case(nontrivial, desc, func() interface{} {
-				m := map[string]interface{}{"case": desc}
-				if got != nil {
-					m["rendered"] = fmt.Sprintf("%s %s Host: %s url=%s hdr=%v", got.Method, got.Target, got.WireHost, got.URL, got.Header)
-				}
-				return m
-			})
-			bad := func(key, format string, a ...interface{}) bool {
-				return vf.Violation(rt, key, "%s\n%s\nproxy result %q, rendered %+v", fmt.Sprintf(format, a...), desc, result, got)
-			}
+			return m
+		})
+		bad := func(key, format string, a ...interface{}) bool {
+			return vf.Violation(rt, key, "%s\n%s\nproxy result %q, rendered %+v", fmt.Sprintf(format, a...), desc, result, got)
+		}
 
-			if got == nil || calls != 1 || result != "" {
-				if bad("render:req-not-forwarded", "the Proxy did not hand exactly one request to the transport (calls=%d)", calls) {
-					continue
+		if got == nil || calls != 1 || result != "" {
+			if bad("render:req-not-forwarded", "the Proxy did not hand exactly one request to the transport (calls=%d)", calls) {
+				continue
+			}
+		}
+		if got.Err != "" {
+			if bad("render:unrenderable", "the request handed to the transport cannot be written/parsed: %s", got.Err) {
+				continue
+			}
+		}
+		// the request goes to a server of the pool
+		if srv == nil {
+			if bad("render:req-url", "request addressed to %s://%s, which is none of the servers the pool may use", got.URL.Scheme, got.URL.Host) {
+				continue
+			}
+		}
+		// Host rule of the statement, for the server the request is addressed to
+		isIP := vfR3IsIPLiteral(srv.Host)
+		wantHost := q.Host
+		rule := "client's Host (server addressed by IP literal or keepHost)"
+		if !isIP && !srv.KeepHost {
+			wantHost = srv.Host + srv.Port
+			rule = "the server's own host (host-name server, keepHost off)"
+		}
+		if !strings.EqualFold(got.WireHost, wantHost) {
+			if bad("render:req-host:"+form, "Host on the wire %q, want %q = %s; server %s (%s)", got.WireHost, wantHost, rule, srv.URL(), srv.Origin) {
+				continue
+			}
+		}
+		if got.Method != q.Method {
+			if bad("render:req-method", "method %q, client sent %q", got.Method, q.Method) {
+				continue
+			}
+		}
+		wantPath, _ := url.PathUnescape(q.RawPath)
+		tpath, tquery := got.Target, ""
+		if j := strings.IndexByte(tpath, '?'); j >= 0 {
+			tpath, tquery = tpath[:j], tpath[j+1:]
+		}
+		gotPath, perr := url.PathUnescape(tpath)
+		if perr != nil || gotPath != wantPath {
+			if bad("render:req-path", "request-target %q decodes to path %q (%v), client sent %q (decoded %q)", got.Target, gotPath, perr, q.RawPath, wantPath) {
+				continue
+			}
+		}
+		if tquery != strings.TrimPrefix(q.Query, "?") {
+			if bad("render:req-query", "request-target %q carries raw query %q, client sent %q", got.Target, tquery, strings.TrimPrefix(q.Query, "?")) {
+				continue
+			}
+		}
+		if !bytes.Equal(got.Body, q.Body) {
+			if bad("render:req-body", "body on the wire %d bytes, client sent %d bytes", len(got.Body), len(q.Body)) {
+				continue
+			}
+		}
+		hop := map[string]bool{}
+		for _, h := range vfR3Hop {
+			hop[h] = true
+		}
+		for _, l := range q.Listed {
+			hop[l] = true
+		}
+		failed := false
+		for _, k := range order {
+			if hop[k] {
+				continue
+			}
+			if fmt.Sprint(got.Header[k]) != fmt.Sprint(sent[k]) || len(got.Header[k]) != len(sent[k]) {
+				failed = bad("render:req-header", "end-to-end header %s: client sent %q, transport gets %q", k, sent[k], got.Header[k]) || failed
+				break
+			}
+		}
+		if failed {
+			continue
+		}
+		hopNames := append(append([]string{}, vfR3Hop...), q.Listed...)
+		for _, k := range hopNames {
+			if v, ok := got.Header[k]; ok {
+				key := "render:req-hop-listed"
+				for _, f := range vfR3Hop {
+					if f == k {
+						key = "render:req-hop-fixed:" + k
+					}
 				}
-			}
-			if got.Err != "" {
-				if bad("render:unrenderable", "the request handed to the transport cannot be written/parsed: %s", got.Err) {
-					continue
-				}
-			}
-			// Host rule of the statement
-			wantHost := q.Host
-			rule := "client's Host (server addressed by IP literal or keepHost)"
-			if !isIP && !srv.KeepHost {
-				wantHost = srv.Host + srv.Port
-				rule = "the server's own host (host-name server, keepHost off)"
-			}
-			if !strings.EqualFold(got.WireHost, wantHost) {
-				if bad("render:req-host:"+form, "Host on the wire %q, want %q = %s", got.WireHost, wantHost, rule) {
-					continue
-				}
-			}
-			// the request goes to the configured server
-			if got.URL.Scheme != srv.Scheme || !strings.EqualFold(got.URL.Host, srv.Host+srv.Port) {
-				if bad("render:req-url", "request addressed to %s://%s, server is %s", got.URL.Scheme, got.URL.Host, srv.URL()) {
-					continue
-				}
-			}
-			if got.Method != q.Method {
-				if bad("render:req-method", "method %q, client sent %q", got.Method, q.Method) {
-					continue
-				}
-			}
-			wantPath, _ := url.PathUnescape(q.RawPath)
-			tpath, tquery := got.Target, ""
-			if j := strings.IndexByte(tpath, '?'); j >= 0 {
-				tpath, tquery = tpath[:j], tpath[j+1:]
-			}
-			gotPath, perr := url.PathUnescape(tpath)
-			if perr != nil || gotPath != wantPath {
-				if bad("render:req-path", "request-target %q decodes to path %q (%v), client sent %q (decoded %q)", got.Target, gotPath, perr, q.RawPath, wantPath) {
-					continue
-				}
-			}
-			if tquery != strings.TrimPrefix(q.Query, "?") {
-				if bad("render:req-query", "request-target %q carries raw query %q, client sent %q", got.Target, tquery, strings.TrimPrefix(q.Query, "?")) {
-					continue
-				}
-			}
-			if !bytes.Equal(got.Body, q.Body) {
-				if bad("render:req-body", "body on the wire %d bytes, client sent %d bytes", len(got.Body), len(q.Body)) {
-					continue
-				}
-			}
-			hop := map[string]bool{}
-			for _, h := range vfR3Hop {
-				hop[h] = true
-			}
-			for _, l := range q.Listed {
-				hop[l] = true
-			}
-			failed := false
-			for _, k := range order {
-				if hop[k] {
-					continue
-				}
-				if fmt.Sprint(got.Header[k]) != fmt.Sprint(sent[k]) || len(got.Header[k]) != len(sent[k]) {
-					failed = bad("render:req-header", "end-to-end header %s: client sent %q, transport gets %q", k, sent[k], got.Header[k]) || failed
+				if bad(key, "hop-by-hop header %s handed to the transport with %q", k, v) {
 					break
 				}
 			}
-			if failed {
-				continue
-			}
-			hopNames := append(append([]string{}, vfR3Hop...), q.Listed...)
-			for _, k := range hopNames {
-				if v, ok := got.Header[k]; ok {
-					key := "render:req-hop-listed"
-					for _, f := range vfR3Hop {
-						if f == k {
-							key = "render:req-hop-fixed:" + k
-						}
-					}
-					if bad(key, "hop-by-hop header %s handed to the transport with %q", k, v) {
-						break
-					}
-				}
-			}
 		}
-	})
+	}
 }
